@@ -725,8 +725,26 @@ func ruleGR3() Rule {
 				}
 			}
 			// hand-written tail functions also build AST nodes (assign)
+			// (functions of the grammar's tail, and functions the reduce actions call wherever they are declared)
+			calledByActions := map[*core.Func]bool{}
+			for _, g := range c.funcsOfPkg("parser", true) {
+				if !g.Generated {
+					continue
+				}
+				ginfo := g.Info()
+				g.OwnNodes(func(n ast.Node) bool {
+					if call, ok := n.(*ast.CallExpr); ok {
+						if fo := core.StaticCallee(ginfo, call); fo != nil {
+							if h := c.P.FuncOf(fo); h != nil && !h.Generated {
+								calledByActions[h] = true
+							}
+						}
+					}
+					return true
+				})
+			}
 			for _, f := range c.funcsOfPkg("parser", false) {
-				if c.P.Fset.Position(f.Pos()).Filename != gi.Gen.GoFile {
+				if c.P.Fset.Position(f.Pos()).Filename != gi.Gen.GoFile && !calledByActions[f] {
 					continue
 				}
 				// a constructor helper is evaluated at each of its call sites, with the arguments' values
